@@ -185,16 +185,20 @@ class PITConv2d(nn.Conv2d, PITModule):
                 track_running_stats=submodule.bn.track_running_stats
             )
             mod.add_submodule(str(n.target) + "_exported_bn", new_bn)
-            # add the batchnorm just after the conv in the graph
-            with mod.graph.inserting_after(n):
-                new_node = mod.graph.call_module(
-                    str(n.target) + "_exported_bn",
-                    args=(n,)
-                )
-                n.replace_all_uses_with(new_node)
-                # The previous line replaces also the input to the BN with the BN itself.
-                # The following line fixes it. Not sure if there's a cleaner way to do this?
-                new_node.replace_input_with(new_node, n)
+            # add the batchnorm just after the layer in the graph, at every call site: a layer invoked
+            # more than once in the forward pass is exported once, at the first visited call site
+            sites = [s for s in mod.graph.nodes
+                     if s.op == 'call_module' and s.target == n.target]
+            for site in sites:
+                with mod.graph.inserting_after(site):
+                    new_node = mod.graph.call_module(
+                        str(n.target) + "_exported_bn",
+                        args=(site,)
+                    )
+                    site.replace_all_uses_with(new_node)
+                    # The previous line replaces also the input to the BN with the BN itself.
+                    # The following line fixes it.
+                    new_node.replace_input_with(new_node, site)
         return
 
     def summary(self) -> Dict[str, Any]:
